@@ -338,9 +338,12 @@ func realValue(v interface{}, boolOpposite *bool, signOpposite *bool) interface{
 	case uint64:
 		v = float64(t)
 	case []interface{}:
-		for k, v := range t {
-			t[k] = realValue(v, boolOpposite, signOpposite)
+		// converted in a copy: the slice may be the very value that is being judged
+		c := make([]interface{}, len(t))
+		for k, e := range t {
+			c[k] = realValue(e, boolOpposite, signOpposite)
 		}
+		v = c
 	default:
 		rv := dereferenceValue(reflect.ValueOf(v))
 		switch rv.Kind() {
